@@ -72,6 +72,13 @@ type vC20CorpusCase struct {
 	Prefix      string         `json:"prefix"` // embed / extract
 	V4          string         `json:"v4"`
 	Addr        string         `json:"addr"`
+	// the request tree's bound: whole seconds ahead / already past, and who
+	// folds it (0 next handler, 1 Queryer, 2 caller's context, 3 both); absent = unbounded
+	Cut *struct {
+		Secs  int64 `json:"secs"`
+		Past  bool  `json:"past"`
+		Route int   `json:"route"`
+	} `json:"cut"`
 }
 
 func (c *vC20CorpusMsg) build(qname string, qtype uint16) *dns.Msg {
@@ -204,6 +211,9 @@ func (c *vC20CorpusCase) scenario() *vC20Scenario {
 	if sc.alKind == 5 && sc.aResp == nil {
 		sc.alKind = 4
 	}
+	if c.Cut != nil {
+		sc.cut = &vC20CutPlan{route: c.Cut.Route, past: c.Cut.Past, secs: c.Cut.Secs, extra: 100}
+	}
 	return sc
 }
 
@@ -279,6 +289,7 @@ type vC20WireNext struct {
 	subMark  int
 	calls    int
 	subCalls int
+	cut      *vC20CutPlan // folded into the tree's ResponseMeta: client query = "next handler", sub-query = "Queryer"
 }
 
 func (h *vC20WireNext) Name() string { return "vc20next" }
@@ -289,9 +300,11 @@ func (h *vC20WireNext) ServeDNS(ctx context.Context, ch *middleware.Chain) {
 	if ch.Writer.Internal() {
 		h.subCalls++
 		m, mark = h.sub, h.subMark
+		h.cut.fold(ctx, 1)
 	} else {
 		h.calls++
 		m, mark = h.down, h.mark
+		h.cut.fold(ctx, 0)
 	}
 	h.mu.Unlock()
 	if m == nil {
@@ -358,9 +371,19 @@ func (u *vC20UDP) run(o *vC20Out, sc *vC20Scenario, corpus string) {
 	if len(sc.req.Question) != 1 || sc.down == nil {
 		return
 	}
+	for attempt := 0; attempt < 3; attempt++ {
+		if u.runOnce(o, sc, corpus) {
+			return
+		}
+	}
+	b, _ := json.Marshal(map[string]any{"k": "udp-slow-clock", "inconclusive": true, "desc": "the exchange took longer than the 0.5 s slack of its bound, three times: " + sc.cut.desc()})
+	o.f.Write(append(b, '\n'))
+}
+
+func (u *vC20UDP) runOnce(o *vC20Out, sc *vC20Scenario, corpus string) bool {
 	d := New(sc.cfg)
 	if d == nil {
-		return
+		return true
 	}
 	d.SetQueryer(u.swap.q)
 	u.swap.mu.Lock()
@@ -394,21 +417,27 @@ func (u *vC20UDP) run(o *vC20Out, sc *vC20Scenario, corpus string) {
 		subCoq = fmt.Sprintf("(SubWrite %s %d)", vC20Msg(sub), subMark)
 	}
 	u.next.mu.Lock()
-	u.next.down, u.next.mark, u.next.sub, u.next.subMark, u.next.calls, u.next.subCalls = sc.down, sc.mark, sub, subMark, 0, 0
+	sc.cut.reset()
+	u.next.down, u.next.mark, u.next.sub, u.next.subMark, u.next.calls, u.next.subCalls, u.next.cut = sc.down, sc.mark, sub, subMark, 0, 0, sc.cut
 	u.next.mu.Unlock()
 
 	req := sc.req.Copy()
 	got := u.exchange(req)
 	u.next.mu.Lock()
 	calls, subCalls := u.next.calls, u.next.subCalls
+	u.next.cut = nil
+	cutOK, cutCoq, cutDesc, bounded := sc.cut.ok(), sc.cut.coq(), sc.cut.desc(), sc.cut != nil && sc.cut.folded
 	u.next.mu.Unlock()
+	if !cutOK {
+		return false
+	}
 	qname, qtype := req.Question[0].Name, req.Question[0].Qtype
 	desc := map[string]any{
 		"prefixes": sc.cfg.DNS64.Prefixes, "clients": sc.cfg.DNS64.ClientNetworks, "zones": sc.cfg.DNS64.ExcludeZones,
 		"exclude_a": sc.cfg.DNS64.ExcludeANetworks, "exclude_aaaa": sc.cfg.DNS64.ExcludeAAAANetworks,
 		"query": fmt.Sprintf("%s %s class=%d rd=%v cd=%v opt=%v over UDP from 127.0.0.1", qname, dns.TypeToString[qtype], req.Question[0].Qclass, req.RecursionDesired, req.CheckingDisabled, sc.hasOPT),
 		"down": vC20Desc(sc.down), "mark": sc.mark, "sub_query_script": vC20Desc(sub), "sub_mark": subMark,
-		"reply": vC20Desc(got), "next_called": calls, "sub_queries": subCalls,
+		"reply": vC20Desc(got), "next_called": calls, "sub_queries": subCalls, "tree_bound": cutDesc,
 	}
 	if corpus != "" {
 		desc["corpus"] = corpus
@@ -416,7 +445,7 @@ func (u *vC20UDP) run(o *vC20Out, sc *vC20Scenario, corpus string) {
 	if got == nil {
 		b, _ := json.Marshal(map[string]any{"k": "udp-no-reply", "inconclusive": true, "desc": desc})
 		o.f.Write(append(b, '\n'))
-		return
+		return true
 	}
 	_, gotEdes := vC20Edes(got)
 	var es []string
@@ -448,8 +477,12 @@ func (u *vC20UDP) run(o *vC20Out, sc *vC20Scenario, corpus string) {
 	default:
 		k += "lookup-no-synth"
 	}
-	o.emit(k, fmt.Sprintf("CaseWire %s %s (Some (%s, %d%%N)) %s %s %s", vC20Config(sc.cfg), qCoq, vC20Msg(sc.down), sc.mark, subCoq, vC20Bool(sc.wf), obs),
+	if bounded && k == "udp-synth" {
+		k += "-bounded"
+	}
+	o.emit(k, fmt.Sprintf("CaseWire %s %s (Some (%s, %d%%N)) %s %s %s %s", vC20Config(sc.cfg), qCoq, vC20Msg(sc.down), sc.mark, subCoq, cutCoq, vC20Bool(sc.wf), obs),
 		desc, k != "udp-no-lookup" || calls%2 == 0, "", "")
+	return true
 }
 
 func TestVerifC20UDP(t *testing.T) {
@@ -526,6 +559,9 @@ func TestVerifC20UDP(t *testing.T) {
 	for _, c := range vC20LoadCorpus(t) {
 		if c.Kind == "" || c.Kind == "serve" {
 			if sc := c.scenario(); sc != nil {
+				if sc.cut != nil && (sc.cut.route == 2 || sc.cut.route == 4) {
+					sc.cut.route = 0
+				}
 				u.run(o, sc, c.Name)
 			}
 		}
